@@ -156,6 +156,27 @@ pub fn byzantine_keys(b: &mut Builder, f: u8) -> Vec<(Kind, Vec<u8>, Option<bool
                     out.push((Kind::Secret, [&seed[..], &pk2].concat(), Some(false), "secret key with the public half of another key".into()));
                 }
                 out.push((Kind::Secret, [&seed[..], &[0u8; 32]].concat(), Some(false), "secret key with an all-zero public half".into()));
+                // the right public key shifted by a point of small order (A + T: a canonical curve point, not of
+                // small order itself, under which some of the seed's signatures still verify) and its negation
+                for t_hex in [
+                    "ecffffffffffffffffffffffffffffffffffffffffffffffffffffffffffffff7f",
+                    "0000000000000000000000000000000000000000000000000000000000000000",
+                    "0000000000000000000000000000000000000000000000000000000000000080",
+                    "26e8958fc2b227b045c3f489f2ef98f0d5dfac05d3c63339b13802886d53fc05",
+                    "26e8958fc2b227b045c3f489f2ef98f0d5dfac05d3c63339b13802886d53fc85",
+                    "c7176a703d4dd84fba3c0b760d10670f2a2053fa2c39ccc64ec7fd7792ac037a",
+                    "c7176a703d4dd84fba3c0b760d10670f2a2053fa2c39ccc64ec7fd7792ac03fa",
+                ] {
+                    let t = hex::decode(t_hex).unwrap();
+                    if let Some(shifted) = crate::refimpl::ed25519_add(&pk, &t) {
+                        if shifted != pk {
+                            out.push((Kind::Secret, [&seed[..], &shifted].concat(), Some(false), "secret key whose public half is the right key plus a small-order point".into()));
+                        }
+                    }
+                }
+                let mut neg = pk.clone();
+                neg[31] ^= 0x80;
+                out.push((Kind::Secret, [&seed[..], &neg].concat(), Some(false), "secret key whose public half is the negated public key".into()));
                 // differences that cancel under xor / sum style comparisons
                 for _ in 0..10 {
                     let (i, j) = (b.rng.usize_below(32), b.rng.usize_below(32));
@@ -383,6 +404,10 @@ impl Scenario for C13 {
     fn rule(&self) -> String {
         "each run: all backends of one version acting as a key directory keyed by id; ids of local/secret/public/PKE keys are computed on every node, again after crash/restart and on clones, for v1 keys held as PEM and as DER, and compared with an independent digest (SHA-384[..33] via aws-lc / BLAKE2b-33 via libsodium over header || canonical PASERK text); related keys and keys with identical bytes under different kinds must get different ids; id texts round-trip, Eq/Ord/Hash and BTreeSet/HashSet behaviour agree with the 33 bytes; strings decoding to other lengths are rejected. distinct = (op, backend, kind)".into()
     }
+    fn adopts(&self, v: &crate::world::Violation) -> bool {
+        // every string offered as an id is classified: a panic of an id parser is this property's too
+        v.property == "C04" && v.class == "panic" && matches!(v.op.as_str(), "parse-lid" | "parse-pid" | "parse-sid" | "serde-lid" | "serde-pid" | "serde-sid")
+    }
     fn plan(&self, seed: u64, run: u64, _tier: Tier) -> Plan {
         let f = 1 + (run % 4) as u8;
         let nodes = family_nodes_of(f);
@@ -480,6 +505,13 @@ impl Scenario for C13 {
                 b.push(Step::Offer { text: TextRef::Lit { text: ta.clone() }, faults: vec![], reader: *bk, artifact, expect: Some(true), why: "C13:any-33-bytes".into() });
                 b.push(Step::IdRel { reader: *bk, a: TextRef::Lit { text: ta.clone() }, b: TextRef::Lit { text: tc } });
                 b.push(Step::IdRel { reader: *bk, a: TextRef::Lit { text: ta.clone() }, b: TextRef::Lit { text: ta.clone() } });
+                // multi-byte characters written over the text so that its byte length stays 51
+                let tlen = ta.chars().count();
+                for at in (0..12).chain(tlen.saturating_sub(6)..tlen) {
+                    for ch in ['é', '€', '\u{1F600}'] {
+                        b.push(Step::Offer { text: TextRef::Lit { text: ta.clone() }, faults: vec![TokFault::TextOverwriteBytes { at, ch }], reader: *bk, artifact, expect: Some(false), why: "C13:id-wrong-length-accepted:multi-byte character".into() });
+                    }
+                }
                 // longer texts whose surplus repeats characters of the text itself (what a decoder that
                 // reads its input in overlapping or re-started blocks would swallow)
                 for back in 1..=8usize {
@@ -715,7 +747,7 @@ impl Scenario for C04 {
             let odd: Vec<PwParams> = if nist {
                 vec![PwParams::Iter(0), PwParams::Iter(1)]
             } else {
-                vec![PwParams::Argon(0, 0, 0), PwParams::Argon(8192, 0, 1), PwParams::Argon(8192, 1, 0), PwParams::Argon(1024, 1, 1), PwParams::Argon(8193, 1, 1), PwParams::Argon(16 * 1024, 1, 3), PwParams::Argon(8192, 1, 2)]
+                vec![PwParams::Argon((1 << 42) + 65536, 1, 1), PwParams::Argon(1 << 42, 1, 1), PwParams::Argon((1 << 43) + 8192 * 1024, 2, 1), PwParams::Argon((1 << 63) + 16 * 1024 * 1024, 1, 1), PwParams::Argon(0, 0, 0), PwParams::Argon(8192, 0, 1), PwParams::Argon(8192, 1, 0), PwParams::Argon(1024, 1, 1), PwParams::Argon(8193, 1, 1), PwParams::Argon(16 * 1024, 1, 3), PwParams::Argon(8192, 1, 2)]
             };
             for p in odd {
                 for (node, _) in nodes.iter().enumerate() {
@@ -806,6 +838,15 @@ impl Scenario for C04 {
                     for ch in ['é', '€', '\u{1F600}'] {
                         b.push(Step::Offer { text: TextRef::Lit { text: text.clone() }, faults: vec![TokFault::TextReplace { at, ch }], reader: *bk, artifact: art, expect: None, why: String::new() });
                         b.push(Step::Offer { text: TextRef::Lit { text: text.clone() }, faults: vec![TokFault::TextInsert { at, ch }], reader: *bk, artifact: art, expect: None, why: String::new() });
+                        // the same character written over as many bytes as it takes: total byte length unchanged
+                        b.push(Step::Offer { text: TextRef::Lit { text: text.clone() }, faults: vec![TokFault::TextOverwriteBytes { at, ch }], reader: *bk, artifact: art, expect: None, why: String::new() });
+                    }
+                }
+                // ... and at every offset of the body's first and last blocks
+                let tl = text.chars().count();
+                for at in (hl + 3..hl + 9).chain(tl.saturating_sub(6)..tl) {
+                    for ch in ['é', '€', '\u{1F600}'] {
+                        b.push(Step::Offer { text: TextRef::Lit { text: text.clone() }, faults: vec![TokFault::TextOverwriteBytes { at, ch }], reader: *bk, artifact: art, expect: None, why: String::new() });
                     }
                 }
             }
@@ -1017,6 +1058,7 @@ impl Scenario for C09 {
                 for ch in ['é', '€', '\u{1F600}', ' '] {
                     offer(&mut b, t, vec![TokFault::TextReplace { at, ch }]);
                     offer(&mut b, t, vec![TokFault::TextInsert { at, ch }]);
+                    offer(&mut b, t, vec![TokFault::TextOverwriteBytes { at, ch }]);
                 }
             }
             // header surgery: version ("k4"/"v4") is 2 chars, then the kind header incl. both dots
